@@ -66,7 +66,8 @@ ExactOutside == page.kind = "rows" =>
 \* number of the first failing clause of the returned crop (0 = none)
 FirstFailing ==
     IF Tr.ev.h # ch' THEN 1                                                   \* height = configured
-    ELSE IF Tr.ev.w # cw' THEN 2                                              \* blank fallback is H x 32; real crop as wide as its grid
+    ELSE IF kind' = "real" /\ Tr.ev.w # cw' THEN 2                            \* a real crop is as wide as its coordinate grid
+                                                                              \* (width of the blank fallback: not in the statement)
     ELSE IF HasPx /\ ~ShapeOK THEN 3
     ELSE IF HasPx /\ kind' = "real" /\ IsGrid /\ ~Degenerate /\ page.kind = "rows" /\ ~RowsClause THEN 4
     ELSE IF HasPx /\ kind' = "real" /\ IsGrid /\ ~Degenerate /\ page.kind = "cols" /\ ~ColsClause(IdealXNum, 2) THEN 5
